@@ -62,7 +62,7 @@ let () =
           let out =
             try
               let arg = parse_sx rest in
-              let r = run (str_of_ascii name) arg in
+              let r = dispatch (str_of_ascii name) arg in
               let b = Buffer.create 256 in print_sx b r; Buffer.contents b
             with
             | Stack_overflow -> "(x737461636b6f766572666c6f77)"
